@@ -134,11 +134,21 @@ def r1(ctx, F, hub):
                 for st_ in b.blocks[bi]['stmts']:
                     ops_ = st_['rv'].get('ops', [])
                     for o_ in ops_:
-                        if o_['k'] == 'move' and not o_['p']['proj'] and o_['p']['l'] in holders and not st_['dst']['proj']:
+                        # (also out of a wrapper: `guard = move (r as Ok).0` - what `CommitLock::acquire(..)?` leaves once the
+                        # constructor is spliced in)
+                        payload_ = all(isinstance(e_, dict) and ('dc' in e_ or 'f' in e_) for e_ in o_['p']['proj']) if o_['k'] == 'move' else False
+                        if o_['k'] == 'move' and (not o_['p']['proj'] or payload_) and o_['p']['l'] in holders and not st_['dst']['proj']:
                             moved_at.setdefault(o_['p']['l'], set()).add(bi)
                             if st_['dst']['l'] not in holders:
                                 holders.add(st_['dst']['l'])
                                 changed_ = True
+                t_ = b.blocks[bi]['term']
+                if t_['k'] == 'call' and (callee(t_) or '').endswith('Try::branch') and t_['args'] and t_['args'][0]['k'] == 'move' and \
+                        not t_['args'][0]['p']['proj'] and t_['args'][0]['p']['l'] in holders and not t_['dst']['proj']:
+                    moved_at.setdefault(t_['args'][0]['p']['l'], set()).add(bi)
+                    if t_['dst']['l'] not in holders:
+                        holders.add(t_['dst']['l'])
+                        changed_ = True
         for bi in cfg.reachable():
             t = b.blocks[bi]['term']
             is_drop = t['k'] == 'drop' and t['p']['l'] in holders and not t['p']['proj']
